@@ -505,7 +505,7 @@ pub fn check_ceremony(ctx: &mut Ctx, psl: &Psl, case: &Case) -> Result<(), Strin
 
 pub fn run(ctx: &mut Ctx) {
     let fs = ctx.first_shard();
-    ctx.rule = "pairs are constructed (host class x RP-ID class relative to the host x origin kind x localhost flag x provider); sweep = every rule of the shipped list as RP ID against hosts a.<rule> and <rule> (A-label form; Unicode form on the Android path). Non-trivial = RP ID present and an unaligned character suffix or public suffix of the host, or the pair was accepted, or the RP ID is a list rule; distinct by the concrete case.".into();
+    ctx.rule = "pairs are constructed (host class x RP-ID class relative to the host x origin kind x localhost flag x provider); sweep = every rule of the shipped list as RP ID against hosts a.<rule> and <rule> (A-label form; Unicode form on the Android path). Since rounds 7/8: RP IDs that are label-aligned windows of the host (not tails) or the host cut short, hosts that contain a registrable name before further labels, providers failing with each error value. Non-trivial = RP ID present and an unaligned character suffix or public suffix of the host, or the pair was accepted, or the RP ID is a list rule; distinct by the concrete case.".into();
     ctx.assumptions = vec![
         "only the 'accepted => conditions' direction is asserted; rejections of pairs the statement would allow are measured (over_rejections)".into(),
         "Android asset-link hosts are generated in canonical lower case".into(),
